@@ -119,10 +119,10 @@ PROPS = {
         'trusted': ['harness/wire_runner.go'],
     },
     'C06': {
-        'props': ['C06', 'C06t', 'C06m'], 'suites': [('codec', 8000, 400000), ('cenc', 3000, 100000), ('ctopic', 8000, 400000), ('cmsg', 2000, 50000)],
+        'props': ['C06', 'C06t', 'C06m'], 'suites': [('codec', 8000, 400000), ('cenc', 3000, 100000), ('ctopic', 8000, 400000), ('cmsg', 2000, 50000), ('ctb', 400, 5000)],
         'rule': 'codec: valid packets of all 15 types and all properties encoded by an independent encoder, CONNECT+following packets on one reader, truncation at every offset, remaining length +/-/huge, non-canonical and 5-9 byte varints, '
                 '7 property mutations, 4 UTF-8 mutations, flag flips, trailing bytes, byte flip/insert/delete, version mismatch, raw bytes, under v3.1/3.1.1/5; compared: every decoded field, consumed bytes, TotalBytes, re-encoding and its re-decode, error class, allocation. '
-                'cenc: encode side; ctopic: the four validity predicates on strings over {a,b,/,+,#,$,NUL,U+FFFD,...}; cmsg: Message.TotalBytes vs encoded PUBLISH, MessageToPublish and MessageFromPublish of it (the queued message keeps the application fields and drops the packet id); non-trivial = at least two bytes / a valid packet',
+                'cenc: encode side; ctopic: the four validity predicates on strings over {a,b,/,+,#,$,NUL,U+FFFD,...}; ctb: packets.TotalBytes (the size the statistics book) for all 15 packet types at every boundary of the Remaining Length encoding (127/128, 16383/16384, 2097151/2097152, 268435455) and random lengths; cmsg: Message.TotalBytes vs encoded PUBLISH, MessageToPublish and MessageFromPublish of it (the queued message keeps the application fields and drops the packet id); non-trivial = at least two bytes / a valid packet',
         'assumptions': ['bufio/io.ReadFull are modelled as "the byte list, then EOF"', 'allocation is observed as runtime.MemStats.TotalAlloc delta with a tolerance for size-class rounding'],
         'trusted': ['harness/codec.go independent encoder'],
     },
@@ -177,7 +177,7 @@ PROPS = {
         'assumptions': [], 'trusted': ['/verif/gen translators report what the source says'],
     },
     'C20': {
-        'suites': [('w_c20', 200, 6000), ('c20r', 30, 600)],
+        'suites': [('w_c20', 200, 6000), ('c20r', 30, 600), ('ctb', 400, 5000)],
         'rule': 'c20r: a session with client id x1 (3.1 / 3.1.1 / 5) and 1-3 refused v5 CONNECTs (Authentication Method, no enhanced authentication configured) that claim the same client id, before the session connects or while it is online; the per-client counters of x1 must show exactly its own CONNECT and CONNACK. w_c20: wire workloads of up to three client ids (v3.1/3.1.1/5; all packet types incl. AUTH, QoS 0-2, drops of every kind: queue full, expired, in-flight expired, exceeds maximum packet size; reconnects, take-overs, terminate, session expiry) with an (inspect) after every step; '
                 'the statistics returned by StatsManager are compared field by field with (a) the extracted Coq model of stats.go driven by the event log and (b) the ground truth computed from the packet log, queue contents and session tables',
         'assumptions': ['PINGREQ/PINGRESP counters are removed by the runner (its barrier pings)', 'drop ground truth is the OnMsgDropped hook log',
